@@ -1,3 +1,190 @@
-(* C19 -- grouping (placeholder, filled below). *)
-From RxVerif Require Import Base.Prelude Ops.Machine Ops.MultiWin Ops.Groups.
-Example C19_placeholder : (1 + 1 = 2)%nat. Proof. reflexivity. Qed.
+(* C19 -- grouping routes each element to exactly one live group.
+   Machines: Ops/Groups.v (group_by_until / group_by as a machine of the window-aware runner
+   Ops/MultiWin.v; partition = publish + ref_count + two filters as a model of its own). *)
+From RxVerif Require Import Base.Prelude Ops.Machine Ops.MultiWin Ops.MultiWinFacts Ops.Groups Ops.GroupFacts
+  Ops.WindowCountFacts Ops.GroupRunFacts.
+
+(* ---- group_by / group_by_until: EVERY state (= every input history), every callback -------- *)
+(* the key has a live writer: the element goes to that group and nowhere else; no group is handed *)
+Theorem C19_group_existing : forall A W B (key : A -> res Z) (elem : A -> res W) (dur : nat -> res bool) s now (x : A) k g (y : W),
+  key x = Ok k -> gb_lookup k (gb_writers s) = Some g -> elem x = Ok y ->
+  x_step (x_group_by_until (B:=B) key elem dur) s now (ISrc 0%nat (Next x)) = (s, [CWin g (Next y)], Cont).
+Proof. exact @group_existing. Qed.
+(* the key has no live writer (first time seen, or its group expired): a NEW group with a fresh id is
+   handed with that key, its duration is subscribed, the element goes to the new group only *)
+Theorem C19_group_new : forall A W B (key : A -> res Z) (elem : A -> res W) (dur : nat -> res bool) s now (x : A) k hot (y : W),
+  key x = Ok k -> gb_lookup k (gb_writers s) = None -> dur (gb_calls s) = Ok hot -> elem x = Ok y ->
+  x_step (x_group_by_until (B:=B) key elem dur) s now (ISrc 0%nat (Next x))
+  = (GbSt (gb_writers s ++ [(k, gb_next s, if hot then S (gb_calls s) else 0%nat)]) (S (gb_next s)) (S (gb_calls s)),
+     CHand (gb_next s) k :: (if hot then [CSub (S (gb_calls s))] else []) ++ [CWin (gb_next s) (Next y)], Cont).
+Proof. exact @group_new. Qed.
+Theorem C19_group_new_iff : forall A W B (key : A -> res Z) (elem : A -> res W) (dur : nat -> res bool) s now (x : A) k,
+  key x = Ok k ->
+  (ghands (snd (fst (x_step (x_group_by_until (W:=W) (B:=B) key elem dur) s now (ISrc 0%nat (Next x))))) <> []
+   <-> gb_lookup k (gb_writers s) = None /\ exists hot, dur (gb_calls s) = Ok hot).
+Proof. exact @group_new_iff. Qed.
+(* every routed element goes to exactly ONE group: the group of its key *)
+Theorem C19_group_route_one : forall A W B (key : A -> res Z) (elem : A -> res W) (dur : nat -> res bool) s now (x : A),
+  snd (x_step (x_group_by_until (W:=W) (B:=B) key elem dur) s now (ISrc 0%nat (Next x))) = Cont ->
+  exists g y, gwin_nexts (snd (fst (x_step (x_group_by_until (W:=W) (B:=B) key elem dur) s now (ISrc 0%nat (Next x))))) = [(g, y)]
+              /\ elem x = Ok y
+              /\ exists k, key x = Ok k
+                 /\ g = match gb_lookup k (gb_writers s) with Some g0 => g0 | None => gb_next s end.
+Proof. exact @group_route_one. Qed.
+Print Assumptions C19_group_existing.
+Print Assumptions C19_group_new.
+Print Assumptions C19_group_new_iff.
+Print Assumptions C19_group_route_one.
+
+(* every open group ends with the source's terminal; so does the outer *)
+Theorem C19_group_source_done : forall A W B (key : A -> res Z) (elem : A -> res W) (dur : nat -> res bool) s now,
+  x_step (x_group_by_until (A:=A) (W:=W) (B:=B) key elem dur) s now (ISrc 0%nat Done)
+  = (s, gb_all (gb_writers s) Done, Complete).
+Proof. exact @group_source_done. Qed.
+(* an error of the source OR of a duration observable reaches every open group and the outer *)
+Theorem C19_group_error_fanout : forall A W B (key : A -> res Z) (elem : A -> res W) (dur : nat -> res bool) s now k e,
+  x_step (x_group_by_until (A:=A) (W:=W) (B:=B) key elem dur) s now (ISrc k (Err e))
+  = (s, gb_all (gb_writers s) (Err e), Fail e).
+Proof. exact @group_source_error. Qed.
+(* raising callbacks *)
+Theorem C19_group_key_raises : forall A W B (key : A -> res Z) (elem : A -> res W) (dur : nat -> res bool) s now (x : A) e,
+  key x = Raise e ->
+  x_step (x_group_by_until (W:=W) (B:=B) key elem dur) s now (ISrc 0%nat (Next x))
+  = (s, gb_all (gb_writers s) (Err e), Fail e).
+Proof. exact @group_key_raises. Qed.
+Theorem C19_group_elem_raises_existing : forall A W B (key : A -> res Z) (elem : A -> res W) (dur : nat -> res bool) s now (x : A) k g e,
+  key x = Ok k -> gb_lookup k (gb_writers s) = Some g -> elem x = Raise e ->
+  x_step (x_group_by_until (W:=W) (B:=B) key elem dur) s now (ISrc 0%nat (Next x))
+  = (s, gb_all (gb_writers s) (Err e), Fail e).
+Proof. exact @group_elem_raises_existing. Qed.
+Theorem C19_group_elem_raises_new : forall A W B (key : A -> res Z) (elem : A -> res W) (dur : nat -> res bool) s now (x : A) k hot e,
+  key x = Ok k -> gb_lookup k (gb_writers s) = None -> dur (gb_calls s) = Ok hot -> elem x = Raise e ->
+  let ws := gb_writers s ++ [(k, gb_next s, if hot then S (gb_calls s) else 0%nat)] in
+  x_step (x_group_by_until (W:=W) (B:=B) key elem dur) s now (ISrc 0%nat (Next x))
+  = (GbSt ws (S (gb_next s)) (S (gb_calls s)),
+     CHand (gb_next s) k :: (if hot then [CSub (S (gb_calls s))] else []) ++ gb_all ws (Err e), Fail e).
+Proof. exact @group_elem_raises_new. Qed.
+Theorem C19_group_dur_raises : forall A W B (key : A -> res Z) (elem : A -> res W) (dur : nat -> res bool) s now (x : A) k e,
+  key x = Ok k -> gb_lookup k (gb_writers s) = None -> dur (gb_calls s) = Raise e ->
+  x_step (x_group_by_until (W:=W) (B:=B) key elem dur) s now (ISrc 0%nat (Next x))
+  = (GbSt (gb_writers s ++ [(k, gb_next s, 0%nat)]) (S (gb_next s)) (S (gb_calls s)),
+     gb_all (gb_writers s ++ [(k, gb_next s, 0%nat)]) (Err e), Fail e).
+Proof. exact @group_dur_raises. Qed.
+Print Assumptions C19_group_source_done.
+Print Assumptions C19_group_error_fanout.
+Print Assumptions C19_group_key_raises.
+Print Assumptions C19_group_elem_raises_existing.
+Print Assumptions C19_group_elem_raises_new.
+Print Assumptions C19_group_dur_raises.
+
+(* expiry and re-creation *)
+Theorem C19_group_expire : forall A W B (key : A -> res Z) (elem : A -> res W) (dur : nat -> res bool) s now d (e : ev A) k g,
+  (forall z, e <> Err z) -> gb_by_dur (S d) (gb_writers s) = Some (k, g) ->
+  x_step (x_group_by_until (W:=W) (B:=B) key elem dur) s now (ISrc (S d) e)
+  = (GbSt (gb_del k (gb_writers s)) (gb_next s) (gb_calls s), [CWin g Done; CUnsub (S d)], Cont).
+Proof. exact @group_expire. Qed.
+Theorem C19_group_recreate_after_expiry : forall A W B (key : A -> res Z) (elem : A -> res W) (dur : nat -> res bool) s now d (e : ev A) k g,
+  gb_inv s -> (forall z, e <> Err z) -> gb_by_dur (S d) (gb_writers s) = Some (k, g) ->
+  gb_lookup k (gb_writers (fst (fst (x_step (x_group_by_until (W:=W) (B:=B) key elem dur) s now (ISrc (S d) e))))) = None.
+Proof. exact @group_recreate_after_expiry. Qed.
+(* the writers table is a dict (keys unique, ids fresh) in every reachable state *)
+Theorem C19_group_invariant_always : forall A W B (key : A -> res Z) (elem : A -> res W) (dur : nat -> res bool) (imm : nat -> bool) (ins : list (Z * inp A)),
+  gb_inv (fst (after imm (x_group_by_until (W:=W) (B:=B) key elem dur)
+                     (fst (start_state imm (x_group_by_until (W:=W) (B:=B) key elem dur)))
+                     (snd (start_state imm (x_group_by_until (W:=W) (B:=B) key elem dur))) ins)).
+Proof. exact @gb_inv_always. Qed.
+Print Assumptions C19_group_expire.
+Print Assumptions C19_group_recreate_after_expiry.
+Print Assumptions C19_group_invariant_always.
+
+(* ---- group_by as a dict of lists: CLOSED FORM for total key / element functions, every finite source,
+   every termination, every group subscribed when handed ------------------------------------------- *)
+(* group j is the group of the j-th distinct key (first-occurrence order); it receives exactly the mapped
+   elements with that key, in arrival order, then the source's terminal *)
+Theorem C19_group_by_closed_form : forall A W B (kf : A -> Z) (ef : A -> W) (xs : list A) (tm : term) (j : nat),
+  wevents j (fst (run all_imm (x_group_by (B:=B) (fun x => Ok (kf x)) (fun x => Ok (ef x))) (src_events xs tm)))
+  = match nth_error (distinct_keys kf xs) j with
+    | Some k => map Next (map ef (filter (fun y => kf y =? k) xs)) ++ term_ev tm
+    | None => []
+    end.
+Proof. exact @group_by_closed_form. Qed.
+Theorem C19_group_by_hands : forall A W B (kf : A -> Z) (ef : A -> W) (xs : list A) (tm : term),
+  hands (fst (run all_imm (x_group_by (B:=B) (fun x => Ok (kf x)) (fun x => Ok (ef x))) (src_events xs tm)))
+  = combine (seq 0 (length (distinct_keys kf xs))) (distinct_keys kf xs).
+Proof. exact @group_by_hands. Qed.
+Print Assumptions C19_group_by_closed_form.
+Print Assumptions C19_group_by_hands.
+
+(* ---- release clauses (C02/C03 for handed groups): EVERY machine, policy, input sequence ------ *)
+Theorem C19_release_when_all_ended : forall A W B (imm : nat -> bool) (m : machine A W B) ins,
+  r_outer (snd (run imm m ins)) = false -> r_wsubs (snd (run imm m ins)) = [] ->
+  r_live (snd (run imm m ins)) = [] /\ r_timers (snd (run imm m ins)) = [].
+Proof. exact @run_all_ended_released. Qed.
+Theorem C19_source_stays_subscribed : forall A W B (imm : nat -> bool) (m : machine A W B) k ins s r,
+  never_unsubs m k -> mem k (r_live r) = true ->
+  (forall now e, In (now, ISrc k e) ins -> is_terminal e = false) ->
+  r_released (snd (after imm m s r ins)) = false ->
+  mem k (r_live (snd (after imm m s r ins))) = true.
+Proof. exact @source_stays_subscribed. Qed.
+Theorem C19_group_keeps_source : forall A W B (key : A -> res Z) (elem : A -> res W) (dur : nat -> res bool),
+  never_unsubs (x_group_by_until (A:=A) (W:=W) (B:=B) key elem dur) 0%nat.
+Proof. exact @group_never_unsubs_source. Qed.
+Print Assumptions C19_release_when_all_ended.
+Print Assumptions C19_source_stays_subscribed.
+Print Assumptions C19_group_keeps_source.
+
+(* ---- partition ----------------------------------------------------------------------------- *)
+(* a non-raising predicate sends the element to the subscribers of output 0 if it holds, of output 1
+   otherwise; nothing else happens *)
+Theorem C19_partition_deliver : forall A (pred : A -> res bool) (x : A) b, pred x = Ok b ->
+  forall todo subs conn,
+  pt_deliver pred x todo subs conn = (subs, conn, map (fun g => OWin g (Next x)) (filter (goes_to b) todo)).
+Proof. exact @partition_deliver. Qed.
+(* exactly one of the two outputs, never both *)
+Theorem C19_partition_exactly_one : forall A (pred : A -> res bool) (x : A) b s,
+  pred x = Ok b -> pt_conn s = true -> pt_stopped s = None ->
+  let o := snd (pt_step pred s (ISrc 0%nat (Next x))) in
+  (forall g, In (OWin g (Next x)) o <-> In g (pt_subs s) /\ goes_to b g = true)
+  /\ ~ (In (OWin 0%nat (Next x)) o /\ In (OWin 1%nat (Next x)) o)
+  /\ fst (pt_step pred s (ISrc 0%nat (Next x))) = s.
+Proof. exact @partition_exactly_one. Qed.
+(* the source is subscribed iff some output subscriber is live, in every reachable state *)
+Theorem C19_partition_connected_iff_subscribed : forall A (pred : A -> res bool) (ins : list (Z * inp A)),
+  pt_inv (pt_after pred (PtSt [] false None) ins).
+Proof. exact @pt_inv_always. Qed.
+Theorem C19_partition_last_leaves : forall A (pred : A -> res bool) s g, pt_inv s -> pt_subs s = [g] ->
+  pt_step pred s (IUnsubWin g) = (PtSt [] false (pt_stopped s), [OUnsub 0%nat]).
+Proof. exact @partition_last_leaves. Qed.
+Theorem C19_partition_other_stays : forall A (pred : A -> res bool) s g,
+  mem g (pt_subs s) = true -> remove g (pt_subs s) <> [] ->
+  pt_step pred s (IUnsubWin g) = (PtSt (remove g (pt_subs s)) (pt_conn s) (pt_stopped s), []).
+Proof. exact @partition_other_stays. Qed.
+Print Assumptions C19_partition_deliver.
+Print Assumptions C19_partition_exactly_one.
+Print Assumptions C19_partition_connected_iff_subscribed.
+Print Assumptions C19_partition_last_leaves.
+Print Assumptions C19_partition_other_stays.
+
+(* ---- witnesses ------------------------------------------------------------------------------ *)
+Example C19_witness_group_by :
+  (* key = parity; 0 is a falsy key; every group subscribed when handed *)
+  let tr := fst (run all_imm (x_group_by (B:=unit) (fun x => Ok (x mod 2)) (fun x => Ok (10 * x)))
+                     [(0, ISrc 0%nat (Next 1)); (0, ISrc 0%nat (Next 2)); (0, ISrc 0%nat (Next 3));
+                      (0, ISrc 0%nat (Next 4)); (0, ISrc 0%nat Done)]) in
+  hands tr = [(0%nat, 1); (1%nat, 0)]
+  /\ wevents 0 tr = [Next 10; Next 30; Done] /\ wevents 1 tr = [Next 20; Next 40; Done]
+  /\ emitted tr = [Done].
+Proof. vm_compute. auto. Qed.
+Example C19_witness_expiry_and_rebirth :
+  let tr := fst (run all_imm (x_group_by_until (B:=unit) (fun _ => Ok 0) (fun x => Ok x) (fun _ => Ok true))
+                     [(0, ISrc 0%nat (Next 1)); (1, ISrc 1%nat (Next 99)); (2, ISrc 0%nat (Next 2));
+                      (3, ISrc 0%nat (Err 7))]) in
+  hands tr = [(0%nat, 0); (1%nat, 0)]
+  /\ wevents 0 tr = [Next 1; Done] /\ wevents 1 tr = [Next 2; Err 7] /\ emitted tr = [Err 7].
+Proof. vm_compute. auto. Qed.
+Example C19_witness_partition :
+  map snd (pt_run (fun x => Ok (x <? 5))
+      [(0, ISubWin 0%nat); (0, ISubWin 1%nat); (1, ISrc 0%nat (Next 3)); (2, ISrc 0%nat (Next 8));
+       (3, IUnsubWin 0%nat); (4, ISrc 0%nat (Next 4)); (5, IUnsubWin 1%nat); (6, ISrc 0%nat (Next 9))])
+  = [OSub 0%nat; OWin 0%nat (Next 3); OWin 1%nat (Next 8); OUnsub 0%nat].
+Proof. vm_compute. reflexivity. Qed.
